@@ -266,13 +266,6 @@ H['log'] = dict(
     },
 )
 
-H['micro2'] = dict(
-    props=['XX'], dir='harness/micro2',
-    oomd=['util/Util.cpp', 'include/CgroupPath.cpp', 'util/PluginArgParser.cpp', 'PluginRegistry.cpp', 'PluginConstructionContext.cpp'], cxx=['h_m2.cpp'], c=['harness/micro/main_micro.c'],
-    defs={'VSTL_STR_CAP': 8, 'VSTL_VEC_MAX': 4, 'VSTL_MAP_MAX': 4},
-    unwind=9, timeout=300, functions=[],
-    variants={'quick': [dict(name='m%d' % m, defs={'H_M': m}) for m in (23, 24)]},
-)
 
 BOUNDS = {}
 ASSUME = {
